@@ -3,6 +3,7 @@ package scen
 import (
 	"encoding/json"
 	"fmt"
+	"strings"
 	"unsafe"
 
 	"github.com/openacid/low/bitmap"
@@ -46,6 +47,12 @@ type ReadersPlan struct {
 	// still remembers the conflicting access is layout-dependent; the pad makes
 	// the layout part of the plan (explicit, replayable).
 	Pad int `json:"pad,omitempty"`
+	// YieldStride > 1 (statement-yield flavour): only every YieldStride-th
+	// statement is a scheduling point. Used for the huge trees, where a
+	// scheduling decision before every one of some 10^8 statements is
+	// unaffordable; the interleavings explored are coarser, still exact and
+	// replayable.
+	YieldStride int `json:"yield_stride,omitempty"`
 }
 
 type ROp struct {
@@ -213,6 +220,10 @@ var readerFns = []string{
 // hugeFns run on the world's huge key list only (when it has one).
 var hugeFns = []string{"sigbits.HugeFirstDiffBits", "sigbits.HugeShardByPrefix", "sigbits.HugeNew"}
 
+// hugeBitmapFns run on the world's huge bitmap only (2^16 words and more: the
+// sizes at which a whole-bitmap function might split its work).
+var hugeBitmapFns = []string{"bitmap.HugeToArray", "bitmap.HugeToArray", "bitmap.HugeIndexRank64", "bitmap.HugeIndexRank128", "bitmap.HugeIndexSelect32", "bitmap.HugeIndexSelect32R64", "bitmap.HugeSlice"}
+
 var fmtUsing = map[string]bool{"bmtree.PathStr": true, "bitmap.Fmt": true}
 
 // refusing marks operations whose DOCUMENTED outcome is a panic (Select32 with
@@ -271,6 +282,33 @@ func execOpInner(w *world, op ROp, viaValue bool, poison uint64) (out rOutcome) 
 }
 
 func execBitmap(w *world, op ROp, viaValue bool) (out rOutcome) {
+	if strings.HasPrefix(op.Fn, "bitmap.Huge") {
+		hw := w.hugeWords
+		if hw == nil {
+			return
+		}
+		nbits := int64(len(hw)) * 64
+		switch op.Fn {
+		case "bitmap.HugeToArray":
+			out.i32s = bitmap.ToArray(hw)
+		case "bitmap.HugeIndexRank64":
+			out.i32s = bitmap.IndexRank64(hw, op.A&1 == 1)
+		case "bitmap.HugeIndexRank128":
+			out.i32s = bitmap.IndexRank128(hw)
+		case "bitmap.HugeIndexSelect32":
+			out.i32s = bitmap.IndexSelect32(hw)
+		case "bitmap.HugeIndexSelect32R64":
+			s, r := bitmap.IndexSelect32R64(hw)
+			out.i32s = append(append([]int32(nil), s...), r...)
+		case "bitmap.HugeSlice":
+			from := mod(op.A, 130)
+			to := nbits - mod(op.B, 130)
+			out.words = bitmap.Slice(hw, int32(from), int32(to))
+		default:
+			panic(engine.HarnessError{Msg: "unknown fn " + op.Fn})
+		}
+		return
+	}
 	if op.Fn == "bitmap.Getw" || op.Fn == "bitmap.Join" {
 		j := w.joins[mod(int64(op.Obj), int64(len(w.joins)))]
 		if op.Fn == "bitmap.Join" {
@@ -589,7 +627,20 @@ func execBitword(w *world, op ROp) (out rOutcome) {
 	case "bitword.FromStr":
 		out.bytes = bw.FromStr(k.keys[i])
 	case "bitword.ToStr":
-		out.strs = []string{bw.ToStr(k.words[width][i])}
+		// also word lists that stop in the middle of a byte (the missing words
+		// count as 0): a PREFIX of the stored list, whose capacity runs on into
+		// the words that follow — in the twin world the same prefix with
+		// cap == len
+		ws := k.words[width][i]
+		if drop := int(mod(op.B, int64(2*8/width))); drop <= len(ws) {
+			n := len(ws) - drop
+			if w.twin {
+				ws = ws[:n:n]
+			} else {
+				ws = ws[:n]
+			}
+		}
+		out.strs = []string{bw.ToStr(ws)}
 	case "bitword.Get":
 		s := k.keys[i]
 		nw := int64(len(s) * 8 / width)
@@ -666,9 +717,27 @@ func execSigbits(w *world, op ROp) (out rOutcome) {
 
 // ---- plan generation --------------------------------------------------------
 
-func genReaders(seed uint64, allowFmt bool, cold bool, deepTier bool) *ReadersPlan {
+func genReaders(seed uint64, allowFmt bool, cold bool, deepTier bool, rare string) *ReadersPlan {
 	r := engine.NewPRNG(seed)
 	p := &ReadersPlan{World: genWorldSpec(r)}
+	// the huge-input plan classes are placed at fixed run indices of every batch
+	// (engine tier suffix /rare1../rare3) and otherwise left to chance
+	switch rare {
+	case "rare1":
+		p.World.HugeKeys, p.World.HugeWords, p.World.HugeMasks = 0, 0, true
+	case "rare2":
+		p.World.HugeKeys, p.World.HugeWords, p.World.HugeMasks = 0, r.PickInt(1<<16, 1<<16+1, 1<<17, 100000), false
+	case "rare3":
+		p.World.HugeKeys, p.World.HugeWords, p.World.HugeMasks = r.PickInt(1<<18, 1<<18+1, 300000), 0, false
+	}
+	if allowFmt { // (allowFmt = the statement-yield flavour)
+		switch {
+		case p.World.HugeMasks:
+			p.YieldStride = 256
+		case p.World.HugeKeys > 0 || p.World.HugeWords > 0:
+			p.YieldStride = 16
+		}
+	}
 	nt := 2 + r.Intn(3)
 	if deepTier && r.Chance(1, 5) {
 		nt = 4 + r.Intn(3) // thorough tier: up to 6 reader tasks
@@ -701,13 +770,28 @@ func genReaders(seed uint64, allowFmt bool, cold bool, deepTier bool) *ReadersPl
 		nt = 2
 		focus = hugeFns
 	}
+	if p.World.HugeWords > 0 {
+		p.RefAfter = false
+		nt = 2
+		focus = hugeBitmapFns
+	}
+	if p.World.HugeMasks {
+		p.RefAfter = false
+		nt = 2 + r.Intn(2)
+		focus = []string{"bmtree.Decode"}
+	}
 	for t := 0; t < nt; t++ {
 		nops := 5 + r.Intn(36)
 		if deepTier && r.Chance(1, 5) {
 			nops = 40 + r.Intn(60)
 		}
-		if p.World.HugeKeys > 0 {
+		if p.World.HugeKeys > 0 || p.World.HugeWords > 0 {
 			nops = 1 + r.Intn(2)
+		}
+		if p.World.HugeMasks {
+			// two calls per task, each on another tree than the task's previous call
+			// and than the other tasks' calls (see below)
+			nops = 2
 		}
 		if p.RefAfter {
 			nops = 30 + r.Intn(11)
@@ -723,6 +807,11 @@ func genReaders(seed uint64, allowFmt bool, cold bool, deepTier bool) *ReadersPl
 				op = p.Tasks[0][r.Intn(len(p.Tasks[0]))] // same query as another task
 			}
 			ops = append(ops, op)
+		}
+		if p.World.HugeMasks {
+			for i := range ops {
+				ops[i].Obj = (t + i) % 3 // every call meets what a call for ANOTHER tree left behind
+			}
 		}
 		p.Tasks = append(p.Tasks, ops)
 	}
